@@ -78,7 +78,9 @@ func (r Root) key() string {
 	return fmt.Sprintf("%d|%p|%d|%s|%s|%v", r.Kind, r.Fn, r.Idx, r.Name, r.Path, r.Owners)
 }
 
-func dedupRoots(rs []Root) []Root {
+func dedupRoots(rs []Root) []Root { return dedupRootsCap(rs, 24) }
+
+func dedupRootsCap(rs []Root, max int) []Root {
 	seen := map[string]bool{}
 	var out []Root
 	for _, r := range rs {
@@ -88,8 +90,8 @@ func dedupRoots(rs []Root) []Root {
 			out = append(out, r)
 		}
 	}
-	if len(out) > 24 {
-		out = append(out[:24], Root{Kind: RUnknown, Name: "too many roots"})
+	if max > 0 && len(out) > max {
+		out = append(out[:max], Root{Kind: RUnknown, Name: "too many roots"})
 	}
 	return out
 }
@@ -653,6 +655,7 @@ func (p *Prog) summary(f *ssa.Function) *fnSummary {
 		s.Returns[i] = dedupRoots(s.Returns[i])
 	}
 	s.Effects = p.directEffects(f)
+	inheritedSeen := map[string]bool{}
 	// inherited effects
 	for _, b := range f.Blocks {
 		for _, in := range b.Instrs {
@@ -699,6 +702,14 @@ func (p *Prog) summary(f *ssa.Function) *fnSummary {
 						ne.Roots = append(ne.Roots, p.substitute(r, callee, args, func(x ssa.Value) []Root { return p.Roots(x) })...)
 					}
 					ne.Roots = dedupRoots(ne.Roots)
+					dk := fmt.Sprintf("%p", ne.OrigInstr)
+					for _, r := range ne.Roots {
+						dk += "|" + r.key()
+					}
+					if inheritedSeen[dk] {
+						continue
+					}
+					inheritedSeen[dk] = true
 					s.Effects = append(s.Effects, ne)
 				}
 			}
